@@ -103,7 +103,11 @@ def write_to_tempfile(content, path=None, suffix='', prefix='tmp'):
 
     (fd, path) = tempfile.mkstemp(suffix=suffix, dir=path, prefix=prefix)
     try:
-        os.write(fd, content)
+        # os.write() may transfer fewer bytes than requested (Linux caps a
+        # single write at 0x7ffff000 bytes), so write until nothing is left.
+        view = memoryview(content)
+        while len(view):
+            view = view[os.write(fd, view):]
     finally:
         os.close(fd)
     return path
